@@ -13,7 +13,7 @@ SEMANTIC_MODULES = ("listener", "auxiliary")
 def c18_4(rep):
     from . import c10
     ix = common.index(rep)
-    c10.c10_2(rep, ix, R="C18.4")
+    common.guarded(rep, "C18.4", c10.c10_2, rep, ix, R="C18.4")
     R = "C18.5"
     rep.rule(R, "in the handwritten semantic modules, token positions and raw stream objects (line, column, start, stop, tokenIndex, source intervals) flow only into exception messages", floor=4)
     for q, f in sorted(ix.funcs.items()):
